@@ -8,6 +8,41 @@ def gen_rpq(rng, tier):
     return [G.rpq_case(rng, cancel=True, big=(i % 25 == 0)) for i in range(n)]
 
 
+PAIRS = [("PUSH", "PULL", "ti"), ("DEALER", "ROUTER", "ti"), ("ROUTER", "DEALER", "ti"), ("DEALER", "DEALER", "t")]
+
+
+def cancel_script(rng):
+    """API futures of real sockets dropped after their 1st..k-th pending poll, under back-pressure and with peer traffic in between"""
+    sty, rty, trs = rng.choice(PAIRS)
+    tr = "tcp" if rng.choice(trs) == "t" else "inproc"
+    ops = []
+    sndtimeo = rng.choice([-1, 40, 150])
+    if rng.random() < 0.7:
+        ops.append("fill")
+    nid = 0
+    for _ in range(rng.randrange(4, 11)):
+        r = rng.random()
+        if r < 0.30:
+            ops.append("%s%d:%d%s" % (rng.choice("ccv"), nid, rng.randrange(1, 7), rng.choice(["", "r", "r"])))
+            nid += 1
+        elif r < 0.45:
+            # (with SNDTIMEO -1 a plain send under back-pressure rightly waits for ever: there it is a bounded number of polls too)
+            ops.append("%s%d" % (rng.choice("ssu"), nid) if sndtimeo >= 0 else "%s%d:%d%s" % (rng.choice("cv"), nid, rng.randrange(3, 8), rng.choice(["", "r"])))
+            nid += 1
+        elif r < 0.60:
+            ops.append(rng.choice(["R", "R", "F"]))
+        elif r < 0.85:
+            ops.append("%s:%d%s" % (rng.choice("ddf"), rng.randrange(1, 6), rng.choice(["", "s", "s"])))
+        else:
+            ops.append("w%d" % rng.choice([1, 5, 30]))
+    return ["cancel tr=%s,sndtimeo=%d,sndhwm=%d,rcvhwm=%d %s %s %s" % (
+        tr, sndtimeo, rng.choice([1, 2, 5]), rng.choice([1, 2, 5]), sty, rty, ";".join(ops))]
+
+
+def gen_cancel(rng, tier):
+    return [cancel_script(rng) for _ in range(40 if tier == "quick" else 1200)]
+
+
 def cancel_oracle(case, impl):
     """with cancellations in the schedule: nothing returned twice, per-pipe order kept, nothing that was queued is lost,
     counters consistent at quiescence"""
@@ -19,16 +54,29 @@ SPEC = {
     "components": [
         {"comp": "conc", "gen": gen_rpq, "oracle": G.rpq_oracle_cancel, "label": "rpq-cancel", "shrink": False,
          "nontrivial": lambda c, i: any(l == "done(cancelled)" for l in i), "dist": lambda cs: {"cases": len(cs)}},
+        {"comp": "stack", "gen": gen_cancel, "label": "socket-futures", "shrink": False,
+         "nontrivial": lambda c, i: any(l == "cancel=ok" for l in i),
+         "dist": lambda cs: {"cases": len(cs), "with_fill": sum(1 for c in cs if " fill" in c[0] or ";fill" in c[0]),
+                             "dropped_sends": sum(c[0].count(";c") + c[0].count(";v") for c in cs),
+                             "dropped_recvs": sum(c[0].count(";d:") + c[0].count(";f:") for c in cs)}},
     ],
-    "search": lambda rng, tier: [("conc", gen_rpq(rng, tier), G.rpq_oracle_cancel, False)],
+    "search": lambda rng, tier: [("conc", gen_rpq(rng, tier), G.rpq_oracle_cancel, False), ("stack", gen_cancel(rng, "quick") * 2, None, False)],
     "rule": "the C08 schedules with `cancel <task>` injected (5% of the grants): a task's future is dropped while parked at an await or "
             "before its first poll; oracle: nothing returned twice, per-pipe FIFO per consumer, every accepted item that was not taken "
             "by a cancelled consumer is still delivered, counters consistent (queued = channel length, no leaked reservation) at "
-            "quiescence; non-trivial = at least one future was actually dropped",
+            "quiescence; non-trivial = at least one future was actually dropped; stack level: on real PUSH/PULL, DEALER/ROUTER, ROUTER/DEALER and "
+            "DEALER/DEALER pairs over tcp and inproc with small high-water marks (the receiver reads only when the script says so), send(), "
+            "send_multipart(), recv() and recv_multipart() futures are polled 1..6 times - the peer reading or sending in between, so that "
+            "the future reaches its later await points - and then dropped; SNDTIMEO -1 / 40 / 150 ms (timeouts cancel internally); oracle: "
+            "every message received is whole, none twice, what send() accepted arrives in order, what it refused does not, nothing the "
+            "receiver had been given is lost, and a final exchange works",
     "assumptions": ["cancellation inside third-party futures (fibre send/recv, tokio Semaphore/Notify) is assumed safe as documented",
-                    "socket-level API futures (send_multipart, REQ/REP state claims) are exercised at stack level, not proved here"],
+                    "socket-level API futures are exercised at stack level (sampled scripts), REQ/REP state claims under dropped futures by "
+                    "C10's model and scripted histories; they are not part of C09's theorems"],
 }
 
 
 def run(ctx):
+    from . import common
+    common.ENV["VERIF_E2E_PAR"] = "8"
     return flow.run(ctx, SPEC)
